@@ -1,6 +1,7 @@
 package govc
 
 import (
+	"strconv"
 	"go/constant"
 	"sort"
 	"fmt"
@@ -81,6 +82,13 @@ func (fc *FnCtx) callGuards(c *ssa.CallCommon, args []Val, st *State) {
 					vals[fmt.Sprintf("arg%dv", i)] = t
 					typs[fmt.Sprintf("arg%dv", i)] = mi.X.Type()
 				}
+				// argNtype: the name of the concrete type converted to the interface (syntactic)
+				tn := shortCallee(typeName(mi.X.Type()))
+				if k := strings.LastIndex(tn, "."); k >= 0 {
+					tn = tn[k+1:]
+				}
+				vals[fmt.Sprintf("arg%dtype", i)] = fc.strLit(tn)
+				typs[fmt.Sprintf("arg%dtype", i)] = types.Typ[types.String]
 			}
 		}
 	}
@@ -90,7 +98,17 @@ func (fc *FnCtx) callGuards(c *ssa.CallCommon, args []Val, st *State) {
 			if g.Kind != "call" || seen[g] {
 				continue
 			}
-			if g.Target == tgt || strings.HasSuffix(tgt, "."+g.Target) {
+			gt, site := g.Target, -1
+			if k := strings.LastIndex(gt, "@"); k > 0 {
+				// TARGET@N: only the N-th call site of that callee in source order
+				if n, err := strconv.Atoi(gt[k+1:]); err == nil {
+					gt, site = gt[:k], n
+				}
+			}
+			if gt == tgt || strings.HasSuffix(tgt, "."+gt) {
+				if site >= 0 && fc.siteOrdinal(fc.curInstr, fc.calleeName(c)) != site {
+					continue
+				}
 				seen[g] = true
 				fc.oneGuard(st, g, vals, typs)
 			}
